@@ -108,3 +108,5 @@ Print Assumptions C07_ok_length.
 Print Assumptions C07_tables_shape.
 Print Assumptions C07_generic_panic_iff.
 Print Assumptions C07_range_check_loop_is_the_source.
+Print Assumptions C07_check_in_field.
+Print Assumptions C07_poseidon_no_alias.
